@@ -460,7 +460,12 @@ EditFamily == SelectSeq(EditFamilyRaw, LAMBDA d : d.stopping)
 (* renaming, and the transformed game.                                     *)
 Renamings == { <<>>,
                << <<"a", "b">>, <<"b", "a">> >>,
-               << <<"a", "zz">>, <<"b", "a1">>, <<"c", "_c">>, <<"x", "y">>, <<"y", "x">> >> }
+               << <<"a", "zz">>, <<"b", "a1">>, <<"c", "_c">>, <<"x", "y">>, <<"y", "x">> >>,
+               \* legal but unusual names: the empty string, a blank, a name containing another
+               << <<"a", "">>, <<"b", " ">>, <<"c", "a b">>, <<"x", "-">>, <<"y", "x y">>, <<"go", "0">>,
+                  <<"out", "go ">>, <<"loop", "out">> >>,
+               << <<"x", "">>, <<"y", " ">>, <<"z", "x y">>, <<"go", "g o">>, <<"a", "b">>, <<"b", "ab">> >>,
+               << <<"go", "">>, <<"out", " ">>, <<"loop", "lo op">> >> }
 \* a random permutation of lo..hi by ranking random keys (Permutations(S) explodes beyond 9 elements)
 RandPerm(lo, hi) ==
     LET key == TLCEval([s \in lo..hi |-> RandomElement(1..1000000)])
